@@ -130,6 +130,7 @@ func funcName(fn *ssa.Function) string {
 }
 
 func (r *Run) goPanic(msg string) {
+	r.lastPanic = msg + " at " + r.curPos()
 	panic(&goPanicT{val: &IfaceV{typ: types.Typ[types.String], val: r.constStr(msg)}, msg: msg, pos: r.curPos()})
 }
 
@@ -288,6 +289,9 @@ func (r *Run) callFunction(fn *ssa.Function, args []Value, bindings []Value) (re
 			}
 			fr.panicking = gp
 			r.frame = fr
+			if r.lastPanic == "" {
+				r.lastPanic = gp.msg + " at " + gp.pos
+			}
 			r.runDefers(fr)
 			if fr.panicking != nil {
 				panic(fr.panicking)
@@ -434,6 +438,7 @@ func (r *Run) execFrom(fr *Frame, b *ssa.BasicBlock) Value {
 						}
 					}
 				}
+				r.lastPanic = msg + " at " + r.curPos()
 				panic(&goPanicT{val: v, msg: msg, pos: r.curPos()})
 			case *ssa.RunDefers:
 				r.runDefers(fr)
@@ -504,6 +509,7 @@ func (r *Run) instr(fr *Frame, ins ssa.Instruction) {
 	case *ssa.Index:
 		switch c := r.get(fr, x.X).(type) {
 		case *ArrayV:
+			c.mat()
 			idx := r.get(fr, x.Index).(*Term)
 			i := r.boundsIndex(idx, x.Index.Type(), len(c.e))
 			r.set(fr, x, c.e[i])
@@ -729,7 +735,7 @@ func (r *Run) builtin(b *ssa.Builtin, args []Value, c *ssa.CallCommon) Value {
 			}
 			return ts.Const(64, uint64(len(x.c.buf)))
 		case *ArrayV:
-			return ts.Const(64, uint64(len(x.e)))
+			return ts.Const(64, uint64(len(x.e)+x.lazyN))
 		case *PtrV:
 			at := c.Args[0].Type().Underlying().(*types.Pointer).Elem().Underlying().(*types.Array)
 			return ts.Const(64, uint64(at.Len()))
